@@ -30,6 +30,12 @@ oer_decode(const asn_codec_ctx_t *opt_codec_ctx,
 		opt_codec_ctx = &s_codec_ctx;
 	}
 
+	if(!type_descriptor->op->oer_decoder) {
+		ASN_DEBUG("OER decoder is not defined for type %s",
+			type_descriptor->name);
+		ASN__DECODE_FAILED;
+	}
+
 	/*
 	 * Invoke type-specific decoder.
 	 */
@@ -66,6 +72,11 @@ oer_open_type_get(const asn_codec_ctx_t *opt_codec_ctx,
     ssize_t len_len;
     enum asn_struct_free_method dispose_method =
         (*struct_ptr) ? ASFM_FREE_UNDERLYING_AND_RESET : ASFM_FREE_EVERYTHING;
+
+    if(!td->op->oer_decoder) {
+        ASN_DEBUG("OER decoder is not defined for type %s", td->name);
+        return -1;
+    }
 
     /* Get the size of a length determinant */
     len_len = oer_fetch_length(bufptr, size, &container_len);
